@@ -285,6 +285,9 @@ func (c *Check) Violation(key, what string, replay interface{}) {
 	}
 	c.violKeys[key] = true
 	if len(c.violKeys) > 25 {
+		if os.Getenv("VERIF_ALLKEYS") != "" { // diagnostic: list every distinct key beyond the 25 that get replay files
+			fmt.Printf("  key=%s\n  what=%s\n", key, what)
+		}
 		return
 	}
 	body := map[string]interface{}{"property": c.ID, "key": key, "what": what, "case": replay, "tier": c.Tier}
